@@ -525,6 +525,12 @@ ocp.set_der(v, a)
         assert A.nnz()==0 or Asignal.nnz()==0
 
         if A.nnz():
+            # Bounding the coefficients is only a guarantee when all splines in a constraint have the same basis
+            Apattern = np.array(ca.DM(A.sparsity()))
+            widths = np.array(self.widths).reshape(-1)
+            for r in range(Apattern.shape[0]):
+                if len(set(widths[np.nonzero(Apattern[r,:])[0]]))>1:
+                    raise Exception("grid='inf' constraints combining states/controls of different spline degree are not supported by SplineMethod")
 
             # Goal is to put constraints on coefficients instead of on v
             # However, different entries of v have different widths of coefficients
